@@ -42,6 +42,11 @@ func Repr(v any) string {
 }
 
 func reprOfValue(val reflect.Value) string {
+	// 空指针上的 Error / String 会解引用空指针而 panic；与 fmt 一样按 <nil> 处理
+	if val.Kind() == reflect.Ptr && val.IsNil() {
+		return "<nil>"
+	}
+
 	switch vt := val.Interface().(type) {
 	case bool:
 		return strconv.FormatBool(vt)
